@@ -77,8 +77,9 @@ func init() {
 			{ID: "C04-R4", Title: "message shape: one State item, spec values, signed material order, sub-TLV tags, stable session objects", Decides: "responses parse at a conformant controller", Floor: 10, Run: func(c *core.Ctx) { c04r4(c); encryptedItemIsCiphertextThenTag(c) }},
 			{ID: "C04-R5", Title: "constant tables", Decides: "TLV tags, states and methods are the specification's", Floor: 25, Run: c04r5},
 			{ID: "C04-R6", Title: "frame layout of the encrypted session (shared with C06-R1/R4)", Decides: "encrypted requests of any size are read", Floor: 4, Run: func(c *core.Ctx) { c04r6(c); frameAtATime(c); c07r2(c) }},
-			{ID: "C04-R7", Title: "failed attempts leave the controller ready; frame counters continuous; no cross-connection state in the endpoints; stateless wrappers", Decides: "a conformant controller can retry, and can keep talking after a multi-frame request", Floor: 8, Run: func(c *core.Ctx) {
+			{ID: "C04-R7", Title: "failed attempts leave the controller ready; frame counters continuous; no cross-connection state in the endpoints; stateless wrappers; every finish request leaves the verify controller in its waiting step", Decides: "a conformant controller can retry, and can keep talking after a multi-frame request", Floor: 8, Run: func(c *core.Ctx) {
 				c04r7(c)
+				verifyFinishLeavesWaiting(c)
 				entityCtorPasses(c)
 				sessionStoredUnderConnectionKey(c)
 				endpointPlumbingPolarity(c)
